@@ -1,3 +1,271 @@
+/-
+  C07 — packets are dispatched to the right Go type; decoders reject foreign types.
+-/
 import Rtcp.Lemmas.Safe6
 namespace Rtcp.C07
+open Rtcp Gen Out
+set_option linter.unusedSimpArgs false
+set_option linter.unusedVariables false
+
+/-- the registration table of the property, written from its text -/
+def specTable (pt fmt : Nat) : Kind :=
+  match pt, fmt with
+  | 200, _ => .sr | 201, _ => .rr | 202, _ => .sdes | 203, _ => .bye | 204, _ => .app
+  | 205, 1 => .nack | 205, 5 => .rrr | 205, 11 => .ccfb | 205, 15 => .twcc
+  | 206, 1 => .pli | 206, 2 => .sli | 206, 4 => .fir | 206, 15 => .remb
+  | 207, _ => .xr
+  | _, _ => .raw
+
+/-- the dispatch switch is the table: all 256 packet types × 32 count/FMT values -/
+theorem dispatch_table : ∀ pt < 256, ∀ fmt < 32, dispatch pt fmt = specTable pt fmt := by decide +kernel
+
+/-- the packet returned for a frame has the Go type the table assigns to the frame's header -/
+theorem frame_kind {b : Bytes} {p : Packet} {n : Nat} (e : unmarshalOne b = .ok (p, n)) :
+    p.kind = specTable (get8 b 1) (get8 b 0 % 32) := by
+  unfold unmarshalOne at e
+  obtain ⟨h, hh, e⟩ := bind_eq_ok.mp e
+  have hf := Header.dec_ok_fields hh
+  dsimp only at e
+  split at e
+  · cases e
+  · rename_i hle
+    rw [slice_of_le (by omega) (by omega)] at e
+    simp only [bind_ok] at e
+    obtain ⟨q, hq, e⟩ := bind_eq_ok.mp e
+    simp at e
+    rw [← e.1, ← hf.2.2.2.2.1, ← hf.2.2.2.2.2, ← dispatch_table h.type hf.2.1 h.count hf.1]
+    generalize dispatch h.type h.count = k at hq
+    cases k <;> simp only [decKind] at hq <;> obtain ⟨v, _, hv⟩ := map_eq_ok.mp hq <;> rw [← hv] <;> rfl
+
+/-- every combination outside the table is returned as a RawPacket holding the frame's octets verbatim -/
+theorem raw_verbatim {b : Bytes} {p : Packet} {n : Nat} (e : unmarshalOne b = .ok (p, n))
+    (hk : specTable (get8 b 1) (get8 b 0 % 32) = .raw) : p = .raw (b.take n) := by
+  have hkind := frame_kind e
+  unfold unmarshalOne at e
+  obtain ⟨h, hh, e⟩ := bind_eq_ok.mp e
+  have hf := Header.dec_ok_fields hh
+  dsimp only at e
+  split at e
+  · cases e
+  · rename_i hle
+    rw [slice_of_le (by omega) (by omega)] at e
+    simp only [bind_ok] at e
+    obtain ⟨q, hq, e⟩ := bind_eq_ok.mp e
+    simp at e
+    have hd : dispatch h.type h.count = .raw := by
+      rw [dispatch_table h.type hf.2.1 h.count hf.1, hf.2.2.2.2.1, hf.2.2.2.2.2]; exact hk
+    rw [hd] at hq
+    simp only [decKind] at hq
+    obtain ⟨v, hv, hvq⟩ := map_eq_ok.mp hq
+    unfold rawDec at hv
+    split at hv
+    · cases hv
+    · obtain ⟨_, _, hv⟩ := bind_eq_ok.mp hv
+      simp at hv
+      rw [← e.1, ← hvq, ← hv, ← e.2]
+      try simp
+
+/-! ### decoders reject foreign types: the type guard at the head of every decoder -/
+
+/-- header octets of a well-framed packet -/
+def hdrPT (b : Bytes) : Nat := get8 b 1
+def hdrFmt (b : Bytes) : Nat := get8 b 0 % 32
+
+theorem sr_rejects (b : Bytes) (h : hdrPT b ≠ 200) : ∀ v, SenderReport.dec b ≠ .ok v := by
+  intro v e
+  unfold SenderReport.dec at e
+  split at e
+  · cases e
+  · obtain ⟨hd, hh, e⟩ := bind_eq_ok.mp e
+    have hf := Header.dec_ok_fields hh
+    split at e
+    · cases e
+    · rename_i ht; simp at ht; exact h (by unfold hdrPT; omega)
+
+theorem rr_rejects (b : Bytes) (h : hdrPT b ≠ 201) : ∀ v, ReceiverReport.dec b ≠ .ok v := by
+  intro v e
+  unfold ReceiverReport.dec at e
+  split at e
+  · cases e
+  · obtain ⟨hd, hh, e⟩ := bind_eq_ok.mp e
+    have hf := Header.dec_ok_fields hh
+    split at e
+    · cases e
+    · rename_i ht; simp at ht; exact h (by unfold hdrPT; omega)
+
+theorem bye_rejects (b : Bytes) (h : hdrPT b ≠ 203) : ∀ v, Goodbye.dec b ≠ .ok v := by
+  intro v e
+  unfold Goodbye.dec at e
+  obtain ⟨hd, hh, e⟩ := bind_eq_ok.mp e
+  have hf := Header.dec_ok_fields hh
+  split at e
+  · cases e
+  · rename_i ht; simp at ht; exact h (by unfold hdrPT; omega)
+
+theorem app_rejects (b : Bytes) (h : hdrPT b ≠ 204) : ∀ v, ApplicationDefined.dec b ≠ .ok v := by
+  intro v e
+  unfold ApplicationDefined.dec at e
+  obtain ⟨hd, hh, e⟩ := bind_eq_ok.mp e
+  have hf := Header.dec_ok_fields hh
+  split at e
+  · cases e
+  · rename_i ht; simp at ht; exact h (by unfold hdrPT; omega)
+
+theorem pli_rejects (b : Bytes) (h : hdrPT b ≠ 206 ∨ hdrFmt b ≠ 1) : ∀ v, PictureLossIndication.dec b ≠ .ok v := by
+  intro v e
+  unfold PictureLossIndication.dec at e
+  split at e
+  · cases e
+  · obtain ⟨hd, hh, e⟩ := bind_eq_ok.mp e
+    have hf := Header.dec_ok_fields hh
+    split at e
+    · cases e
+    · rename_i ht; simp at ht; unfold hdrPT hdrFmt at h; omega
+
+theorem rrr_rejects (b : Bytes) (h : hdrPT b ≠ 205 ∨ hdrFmt b ≠ 5) : ∀ v, RapidResync.dec b ≠ .ok v := by
+  intro v e
+  unfold RapidResync.dec at e
+  split at e
+  · cases e
+  · obtain ⟨hd, hh, e⟩ := bind_eq_ok.mp e
+    have hf := Header.dec_ok_fields hh
+    split at e
+    · cases e
+    · rename_i ht; simp at ht; unfold hdrPT hdrFmt at h; omega
+
+theorem nack_rejects (b : Bytes) (h : hdrPT b ≠ 205 ∨ hdrFmt b ≠ 1) : ∀ v, TransportLayerNack.dec b ≠ .ok v := by
+  intro v e
+  unfold TransportLayerNack.dec at e
+  split at e
+  · cases e
+  · obtain ⟨hd, hh, e⟩ := bind_eq_ok.mp e
+    have hf := Header.dec_ok_fields hh
+    dsimp only at e
+    split at e
+    · cases e
+    · split at e
+      · cases e
+      · rename_i ht; simp at ht; unfold hdrPT hdrFmt at h; omega
+
+theorem fir_rejects (b : Bytes) (h : hdrPT b ≠ 206 ∨ hdrFmt b ≠ 4) : ∀ v, FullIntraRequest.dec b ≠ .ok v := by
+  intro v e
+  unfold FullIntraRequest.dec at e
+  split at e
+  · cases e
+  · obtain ⟨hd, hh, e⟩ := bind_eq_ok.mp e
+    have hf := Header.dec_ok_fields hh
+    dsimp only at e
+    split at e
+    · cases e
+    · split at e
+      · cases e
+      · rename_i ht; simp at ht; unfold hdrPT hdrFmt at h; omega
+
+theorem remb_rejects (b : Bytes) (h : hdrPT b ≠ 206 ∨ hdrFmt b ≠ 15) : ∀ v, Remb.dec b ≠ .ok v := by
+  intro v e
+  unfold Remb.dec at e
+  split at e
+  · cases e
+  · rename_i hl
+    rw [u8At_of_lt (by lomega)] at e
+    simp only [bind_ok] at e
+    split at e
+    · cases e
+    · split at e
+      · cases e
+      · split at e
+        · cases e
+        · rename_i h15
+          rw [u8At_of_lt (by lomega)] at e
+          simp only [bind_ok] at e
+          split at e
+          · cases e
+          · rename_i h206; simp at h15 h206; unfold hdrPT hdrFmt at h; omega
+
+theorem xr_rejects (b : Bytes) (h : hdrPT b ≠ 207) : ∀ v, XR.dec b ≠ .ok v := by
+  intro v e
+  have hst := (Status.toOut_eq_ok e).1
+  unfold XR.decP at hst
+  cases hh : Header.dec b with
+  | ok hd =>
+    have hf := Header.dec_ok_fields hh
+    simp only [hh] at hst
+    split at hst
+    · simp at hst
+    · rename_i ht; simp at ht; exact h (by unfold hdrPT; omega)
+  | err => simp [hh, Out.status] at hst
+  | panic => simp [hh, Out.status] at hst
+  | diverge => simp [hh, Out.status] at hst
+
+theorem sdes_rejects (b : Bytes) (h : hdrPT b ≠ 202) : ∀ v, SourceDescription.dec b ≠ .ok v := by
+  intro v e
+  have hst := (Status.toOut_eq_ok e).1
+  unfold SourceDescription.decP at hst
+  cases hh : Header.dec b with
+  | ok hd =>
+    have hf := Header.dec_ok_fields hh
+    simp only [hh] at hst
+    split at hst
+    · simp at hst
+    · rename_i ht; simp at ht; exact h (by unfold hdrPT; omega)
+  | err => simp [hh, Out.status] at hst
+  | panic => simp [hh, Out.status] at hst
+  | diverge => simp [hh, Out.status] at hst
+
+theorem twcc_rejects (b : Bytes) (h : hdrPT b ≠ 205 ∨ hdrFmt b ≠ 15) : ∀ v, Twcc.dec b ≠ .ok v := by
+  intro v e
+  have hst := (Status.toOut_eq_ok e).1
+  unfold Twcc.decP at hst
+  split at hst
+  · simp at hst
+  all_goals cases hh : Header.dec b with
+  | ok hd =>
+    have hf := Header.dec_ok_fields hh
+    simp only [hh] at hst
+    split at hst
+    · simp at hst
+    · split at hst
+      · simp at hst
+      · split at hst
+        · simp at hst
+        · rename_i ht; simp at ht; unfold hdrPT hdrFmt at h; omega
+  | err => simp [hh, Out.status] at hst
+  | panic => simp [hh, Out.status] at hst
+  | diverge => simp [hh, Out.status] at hst
+
+/-- the CCFB decoder checks the packet type (its FMT is not checked on the pinned tree: known finding KF-CCFB-FMT) -/
+theorem ccfb_rejects_partial (b : Bytes) (h : hdrPT b ≠ 205) : ∀ v, Ccfb.dec b ≠ .ok v := by
+  intro v e
+  have hst := (Status.toOut_eq_ok e).1
+  unfold Ccfb.decP at hst
+  split at hst
+  · simp at hst
+  all_goals cases hh : Header.dec b with
+  | ok hd =>
+    have hf := Header.dec_ok_fields hh
+    simp only [hh] at hst
+    split at hst
+    · simp at hst
+    · rename_i ht; simp at ht; exact h (by unfold hdrPT; omega)
+  | err => simp [hh, Out.status] at hst
+  | panic => simp [hh, Out.status] at hst
+  | diverge => simp [hh, Out.status] at hst
+
+/-- SLI's own decoder demands 205/2 (the table dispatches 206/2 to it: known finding KF-SLI-PT) -/
+theorem sli_rejects_partial (b : Bytes) (h : hdrPT b ≠ 205 ∨ hdrFmt b ≠ 2) : ∀ v, SliceLossIndication.dec b ≠ .ok v := by
+  intro v e
+  unfold SliceLossIndication.dec at e
+  split at e
+  · cases e
+  · obtain ⟨hd, hh, e⟩ := bind_eq_ok.mp e
+    have hf := Header.dec_ok_fields hh
+    dsimp only at e
+    split at e
+    · cases e
+    · split at e
+      · cases e
+      · rename_i ht; simp at ht; unfold hdrPT hdrFmt at h; omega
+
+example : specTable 205 15 = .twcc ∧ specTable 205 3 = .raw ∧ specTable 192 0 = .raw := by decide
+
 end Rtcp.C07
